@@ -453,10 +453,17 @@ def gen_hashseed_job(seed: int, k: int) -> dict:
 
 
 def tree_of(pairs):
-    def one(p):
-        return [p.name, p.start, p.end, p.tag, [one(c) for c in p.children]]
-
-    return [one(p) for p in pairs]
+    """The tree as a FLAT pre-order list of [depth, rule name, start, end, tag] (a faithful
+    encoding; built iteratively so that the harness never recurses on the depth of a tree
+    the code under test returned)."""
+    out = []
+    stack = [(0, p) for p in reversed(list(pairs))]
+    while stack:
+        d, p = stack.pop()
+        out.append([d, p.name, p.start, p.end, p.tag])
+        for c in reversed(list(p.children)):
+            stack.append((d + 1, c))
+    return out
 
 
 def labelset(d):
@@ -665,6 +672,18 @@ def execute_plan(plan) -> dict:
 
     def run_op(me, op):
         headroom = exhaust.get((me, op["oid"]))
+        budget = sys.getrecursionlimit()
+        try:
+            return run_op_inner(me, op, headroom)
+        finally:
+            # the result of parsing deeply nested input depends on the interpreter's
+            # recursion budget; a call that leaves the process-wide budget changed makes
+            # every later result depend on it
+            if sys.getrecursionlimit() != budget:
+                budget_changes.append({"oid": op["oid"], "op": op["op"], "before": budget, "after": sys.getrecursionlimit(), "mode": "interpreter" if (objs.get(op.get("t") or "") or {}).get("kind") != "module" else "generated"})
+                sys.setrecursionlimit(budget)
+
+    def run_op_inner(me, op, headroom):
         sched.arm()
         try:
             if headroom is not None:
@@ -683,6 +702,7 @@ def execute_plan(plan) -> dict:
 
     crashed: list[str] = []
     deferred: list = []
+    budget_changes: list = []
 
     def run_phase(ph):
         """One phase = a sequential setup prefix (main thread, never pre-empted, never
@@ -791,6 +811,7 @@ def execute_plan(plan) -> dict:
         "sites": sorted({x for sc in scheds for x in sc.sites}),
         "concurrency_probe": probe,
         "history": history,
+        "budget_changes": budget_changes,
     }
 
 
@@ -914,6 +935,8 @@ def judge(plan, run, refs: RefServer):
         checked += 1
         if r["obs"] != ref:
             viols.append({"clause": ("late-read-" if r.get("deferred") else "") + diff_clause(r["obs"], ref), "mode": r["key"][2], "oid": r["oid"], "got": r["obs"], "reference": ref, "key": r["key"], "after_fault": aborted_before})
+    for bc in run.get("budget_changes", ())[:1]:
+        viols.append({"clause": "recursion-budget-changed-by-a-call", "mode": bc["mode"], "oid": bc["oid"], "got": {"sys.getrecursionlimit() before": bc["before"], "after": bc["after"], "operation": bc["op"]}, "reference": "unchanged", "key": None})
     if run.get("capped"):
         viols.append({"clause": "run-exceeded-step-budget", "mode": "any", "oid": next((r["oid"] for r in results if r["status"] == "capped"), None), "got": run["steps"], "reference": None, "key": None})
     return viols, checked
